@@ -1,5 +1,6 @@
 """C17 - f_proxy is transparent for forwarded operations; f_nocancel shields cancel
 (schedule / time facets; the operand table is a fixed sample, not an input-space claim)."""
+import collections
 import json
 import math
 import operator
@@ -20,9 +21,29 @@ RULE = ("Each run: one (operation, operand, value) triple from a fixed table cov
 ASSUMPTIONS = ["'for all operand values' is an input-space claim: the fixed table samples it; the blocking / non-blocking / timeout / cross-thread facets are what the simulation decides"]
 SLACK = 0.005
 
+class _Pt(collections.namedtuple("Pt", ["x", "y"])):
+    """a namedtuple result (f_zip's results are namedtuples too): _asdict / _fields / _replace"""
+    __slots__ = ()
+
+
+class _Obj(object):
+    """a user object with a single-underscore member and method"""
+
+    def __init__(self):
+        self._private = 41
+        self.public = 42
+
+    def _helper(self):
+        return "helped"
+
+    def __repr__(self):
+        return "Obj()"
+
+
 VALUES = {
     "int": 7, "neg": -3, "float": 2.5, "str": "hello", "list": [3, 1, 2], "dict": {"a": 1, "b": 2}, "tuple": (1, 2, 3),
     "set": {1, 2}, "none": None, "bytes": b"ab", "complex": 1 + 2j, "zero": 0,
+    "namedtuple": _Pt(1, 2), "object": _Obj(),
 }
 # (name, function(obj), applicable value keys or None for all)
 OPS = [
@@ -65,6 +86,12 @@ OPS = [
     ("attr_keys", lambda o: sorted(o.keys())),
     ("attr_missing", lambda o: o.no_such_attribute),
     ("attr_real", lambda o: o.real),
+    ("attr_public", lambda o: o.public),
+    ("attr__private", lambda o: o._private),
+    ("attr__helper", lambda o: o._helper()),
+    ("attr__fields", lambda o: o._fields),
+    ("attr__asdict", lambda o: sorted(o._asdict().items())),
+    ("attr__replace", lambda o: tuple(o._replace(x=5))),
 ]
 NONBLOCKING = [
     ("bool", lambda p: bool(p)),
